@@ -307,6 +307,9 @@ def fill_result(res: Result, proj: Project, thorough: bool, only=None):
 def run(ctx) -> Result:
     res = Result("C08")
     fill_result(res, ctx.proj, ctx.thorough)
+    from . import C04
+    res.rule("L8", "the row the search stopped on is the ranking returned: decoding of a 290-bucket row", 1)
+    C04.check_decode_large(res, ctx.proj, "L8")
     res.assumptions.append("numba nopython mode preserves Python semantics of the kernels; behaviour depends on bucket "
                            "ids only through comparisons and +-1 shifts, so universes of <= 4 elements realise every "
                            "guard combination (alone / not alone, first / last bucket, neighbours of size 1 / >1)")
